@@ -10,7 +10,7 @@ export GOROOT=/root/go/pkg/mod/golang.org/toolchain@v0.0.1-go1.24.0.linux-amd64
 export PATH=$GOROOT/bin:$PATH
 exec > $LOG 2>&1
 git -C /repo worktree remove --force $WT 2>/dev/null; rm -rf $WT
-git -C /repo worktree add --detach $WT HEAD >/dev/null || exit 9
+git -C /repo worktree add --detach $WT HEAD >/dev/null 2>&1 || exit 9
 pkgs() { # go packages touched by the patch, as "<module-dir> <pkg>" lines
   grep '^+++ b/' $SRC/patch.diff | sed 's,^+++ b/,,' | while read f; do d=$(dirname $f)
     case $d in runtime/*) echo "runtime ./${d#runtime/}";; runtime) echo "runtime .";; *) echo ". ./$d";; esac; done | sort -u; }
